@@ -161,3 +161,26 @@ Example C16_nonvacuous :
   c_text ex_t (store ex_t ex_v) = Some (print_compact (expected ex_t ex_v)) /\
   names_safe ex_t = true /\ wf_json (print_compact (expected ex_t ex_v)) = true.
 Proof. vm_compute. repeat split; reflexivity. Qed.
+
+(* non-vacuity on the round-2 shape classes: a key of 61 characters, zero-bit wrapper messages
+   (no bit on the wire, yet fields) as field, array element and nested three deep, in an
+   all-zero-bit top-level message — the hypotheses hold and the conclusions compute *)
+Definition ex_nothing : nty := NMsg false [].
+Definition ex_slot : nty := NMsg false [(1, ("reserved", ex_nothing))].
+Definition ex_rack : nty := NMsg false [(2, ("spare", NArr false 2 ex_nothing)); (1, ("slot", ex_slot))].
+Definition ex_long : string := "propeller_front_left_rotation_speed_rpm_measurement_channel_x".
+Definition ex_shapes : nty :=
+  NMsg false [ (2, (ex_long, ex_slot)); (1, ("racks", NArr false 2 ex_rack)); (3, ("e", ex_nothing)) ].
+Definition ex_rack_v : val := VM [(2, VL [VM []; VM []]); (1, VM [(1, VM [])])].
+Definition ex_shapes_v : val := VM [(2, VM [(1, VM [])]); (1, VL [ex_rack_v; ex_rack_v]); (3, VM [])].
+
+Example C16_nonvacuous_shapes :
+  String.length ex_long = 61%nat /\ nbits (erase ex_shapes) = 0 /\
+  shape_ok ex_shapes = true /\ wf (erase ex_shapes) = true /\ has_ty (erase ex_shapes) ex_shapes_v = true /\
+  no_proxy_names ex_shapes = true /\ names_distinct ex_shapes = true /\ names_safe ex_shapes = true /\
+  c_text ex_shapes (store ex_shapes ex_shapes_v) =
+    Some "{""racks"":[{""slot"":{""reserved"":{}},""spare"":[{},{}]},{""slot"":{""reserved"":{}},""spare"":[{},{}]}],""propeller_front_left_rotation_speed_rpm_measurement_channel_x"":{""reserved"":{}},""e"":{}}" /\
+  py_to_json "," ":" ex_shapes ex_shapes_v = POk (print_compact (expected ex_shapes ex_shapes_v)) /\
+  c_text ex_shapes (store ex_shapes ex_shapes_v) = Some (print_compact (expected ex_shapes ex_shapes_v)) /\
+  wf_json (print_compact (expected ex_shapes ex_shapes_v)) = true.
+Proof. vm_compute. repeat split; reflexivity. Qed.
